@@ -6,13 +6,14 @@
 EXTENDS KernStream, Json, IOUtils, TLCExt, SequencesExt
 Batch == TLCEval(JsonDeserialize(IOEnv.CASE_FILE))
 VARIABLES tid, l
-tvars == <<free, knotes, kopen, kbars, kattrs, kbad, tid, l>>
+tvars == <<free, kcol, knotes, kopen, kbars, kattrs, kbad, tid, l>>
 Doc == Batch[tid].lines
 TInit == tid \in 1..Len(Batch) /\ l = 1 /\ KInit(Batch[tid].nspines)
 TNext == /\ l <= Len(Doc) /\ l' = l + 1 /\ tid' = tid
          /\ \/ (Doc[l].kind = "data" /\ ReadData(Doc[l]))
             \/ (Doc[l].kind = "bar" /\ ReadBar(Doc[l]))
             \/ (Doc[l].kind = "interp" /\ ReadInterp(Doc[l]))
+            \/ (Doc[l].kind = "path" /\ ReadPath(Doc[l]))
 TSpec == TInit /\ [][TNext]_tvars
 Done == l = Len(Doc) + 1
 SeqOfSet(S) == SetToSeq(S)
